@@ -55,6 +55,9 @@ pub enum EvFault {
     SwapPadPayloads { a: usize, b: usize },
     DupPadChunk { msg: usize, chunk: usize },
     DropPadChunk { msg: usize, chunk: usize },
+    /// two network faults on one message: non-final chunk `lost` never arrives and non-final
+    /// chunk `dup` arrives twice - the number of chunks and the highest id still look right
+    DupAndDropPadChunk { msg: usize, dup: usize, lost: usize },
     /// a PWB board that is not installed for this run sends pad data
     BoardNotInstalled,
     UnknownBank { name: String },
@@ -97,6 +100,7 @@ impl EvFault {
             EvFault::SwapPadPayloads { .. } => "swap_pad_payloads",
             EvFault::DupPadChunk { .. } => "dup_pad_chunk",
             EvFault::DropPadChunk { .. } => "drop_pad_chunk",
+            EvFault::DupAndDropPadChunk { .. } => "dup_and_drop_pad_chunk",
             EvFault::BoardNotInstalled => "board_not_installed",
             EvFault::UnknownBank { .. } => "unknown_bank",
             EvFault::MalformedWire { .. } => "malformed_wire",
@@ -403,6 +407,17 @@ pub fn apply_fault(ev: &mut BuiltEvent, f: &EvFault, run: u32) -> bool {
             ev.banks[bi] = BankSpec { name: "TRBA".into(), content: Content::Opaque(vec![]) };
             true
         }
+        EvFault::DupAndDropPadChunk { msg, dup, lost } => {
+            // first message (from `msg` on) with at least two non-final chunks
+            let n = ev.pad_idx.len();
+            let Some(m) = (0..n).map(|k| &ev.pad_idx[(msg + k) % n]).find(|m| m.len() >= 3) else { return false };
+            let nf = m.len() - 1;
+            let d = dup % nf;
+            let l = if lost % nf == d { (d + 1) % nf } else { lost % nf };
+            let copy = ev.banks[m[d]].clone();
+            ev.banks[m[l]] = copy;
+            true
+        }
         EvFault::BoardNotInstalled => {
             let maps = run_maps(run);
             if maps.pwb_installed.is_empty() {
@@ -627,6 +642,8 @@ pub fn all_faults(r: &mut Rng) -> Vec<EvFault> {
         EvFault::PadPayloadIdentity { msg: i, other: j, board: true, chip: j % 2 == 0, short: false },
         EvFault::PadPayloadIdentity { msg: i, other: j, board: i % 2 == 0, chip: true, short: true },
         EvFault::PadPayloadIdentity { msg: j, other: j, board: true, chip: false, short: i % 2 == 0 },
+        EvFault::DupAndDropPadChunk { msg: i, dup: j, lost: j + 1 },
+        EvFault::DupAndDropPadChunk { msg: j, dup: i + 1, lost: i },
     ]
 }
 
@@ -723,7 +740,7 @@ impl Check for C10Check {
         "fault_enumeration"
     }
     fn rule(&self) -> String {
-        "scenario = a base event of well-formed packets (seeded subset of the 8x32 (board, ADC channel) pairs - across scenarios all 256, periodically all at once - and of the installed (PWB board, chip) groups with 1..72 pad channels plus reset/FPN channels; waveform lengths around the run's delay; suppression on/off; fully suppressed 16-byte packets; BV/TRB3/MCVX banks that must be ignored) under one of 15 run-number configurations (simulation, every calibration/map range boundary +-1, runs without maps), with either no fault or ONE inconsistency from the exhaustive list {rename wire bank (channel/board), swap two wire payloads, duplicate wire bank (identical / short copy / suppressed copy, copy first or last), drop TRG, two TRG, BV channel in a C bank (full / 16-byte form), suppressed packet under another channel's name, rename pad bank, swap pad payloads across boards, duplicate / drop a pad chunk, pad data of a board not installed for the run, PWB packet inside the chunks naming another board/chip than its chunk headers and bank names (also a second message's identity, so that two messages claim the same pads; long or delay-short), unknown bank name (13 spellings), malformed wire / pad / TRG payload in 11 / 15 / 9 CRC- and baseline-valid ways (unknown MAC in any byte, reserved bytes, version/type/module, keep_last, sample counts, masks, chip letter, end marker, TRG marks, reserved words, counter ordering, truncation)}; every (event, fault) is built under 3 arrival orders x 2 hash keys by the real try_from_banks, each build on a fresh thread; a further block of history scenarios assembles 1-3 other events (5 of 6 with one of the faults above, i.e. rejected at some stage of the build; seeded bank order; same or another run; often the same (board, chip) groups) on the SAME thread before a consistent event under test. Waveforms carry a channel-unique signature so a wrong slot or delay is attributable. Oracle: the reference event assembler (statement of C10 as code; slots from the probed public maps; calibration parsed by the harness from the shipped files); all 256 wire and 18432 pad slots and the timestamp are compared through the cfg(alpha_g_verif) accessors. Non-trivial = at least one real build; distinct = distinct event-log hashes (bank bytes, order, outcome).".into()
+        "scenario = a base event of well-formed packets (seeded subset of the 8x32 (board, ADC channel) pairs - across scenarios all 256, periodically all at once - and of the installed (PWB board, chip) groups with 1..72 pad channels plus reset/FPN channels; waveform lengths around the run's delay; suppression on/off; fully suppressed 16-byte packets; BV/TRB3/MCVX banks that must be ignored) under one of 15 run-number configurations (simulation, every calibration/map range boundary +-1, runs without maps), with either no fault or ONE inconsistency from the exhaustive list {rename wire bank (channel/board), swap two wire payloads, duplicate wire bank (identical / short copy / suppressed copy, copy first or last), drop TRG, two TRG, BV channel in a C bank (full / 16-byte form), suppressed packet under another channel's name, rename pad bank, swap pad payloads across boards, duplicate / drop a pad chunk, duplicate one non-final chunk of a message while another is lost (count and highest id unchanged), pad data of a board not installed for the run, PWB packet inside the chunks naming another board/chip than its chunk headers and bank names (also a second message's identity, so that two messages claim the same pads; long or delay-short), unknown bank name (13 spellings), malformed wire / pad / TRG payload in 11 / 15 / 9 CRC- and baseline-valid ways (unknown MAC in any byte, reserved bytes, version/type/module, keep_last, sample counts, masks, chip letter, end marker, TRG marks, reserved words, counter ordering, truncation)}; every (event, fault) is built under 3 arrival orders x 2 hash keys by the real try_from_banks, each build on a fresh thread; a further block of history scenarios assembles 1-3 other events (5 of 6 with one of the faults above, i.e. rejected at some stage of the build; seeded bank order; same or another run; often the same (board, chip) groups) on the SAME thread before a consistent event under test. Waveforms carry a channel-unique signature so a wrong slot or delay is attributable. Oracle: the reference event assembler (statement of C10 as code; slots from the probed public maps; calibration parsed by the harness from the shipped files); all 256 wire and 18432 pad slots and the timestamp are compared through the cfg(alpha_g_verif) accessors. Non-trivial = at least one real build; distinct = distinct event-log hashes (bank bytes, order, outcome).".into()
     }
     fn assumptions(&self) -> Vec<String> {
         vec![
@@ -740,12 +757,12 @@ impl Check for C10Check {
     }
     fn count(&self, tier: Tier) -> u64 {
         match tier {
-            Tier::Quick => 46 * 33 + 172 + N_HISTORY_QUICK,
-            Tier::Thorough => 2000 * 33 + 6000 + N_HISTORY_THOROUGH,
+            Tier::Quick => 46 * 35 + 172 + N_HISTORY_QUICK,
+            Tier::Thorough => 2000 * 35 + 6000 + N_HISTORY_THOROUGH,
         }
     }
     fn generate(&self, seed: u64, index: u64, tier: Tier) -> Value {
-        let n_faulted = if tier == Tier::Quick { 46 * 33 } else { 2000 * 33 };
+        let n_faulted = if tier == Tier::Quick { 46 * 35 } else { 2000 * 35 };
         let n_consistent = if tier == Tier::Quick { 172 } else { 6000 };
         if index >= n_faulted + n_consistent {
             // history scenarios: 1-3 other events (mostly faulted, i.e. rejected somewhere inside
@@ -806,9 +823,9 @@ impl Check for C10Check {
             let scn = Scn { base, fault: None, order_seeds: vec![0, r.next_u64() | 2], hash_keys: vec![r.next_u64()], pred: vec![] };
             return serde_json::to_value(scn).unwrap();
         }
-        // base event k = index / 33, fault slot = index % 33 (0 = none)
-        let k = index / 33;
-        let slot = (index % 33) as usize;
+        // base event k = index / 35, fault slot = index % 35 (0 = none)
+        let k = index / 35;
+        let slot = (index % 35) as usize;
         let base_seed = simcore::run_seed(simcore::driver::verif_seed(), "C10-base", k);
         let mut rb = Rng::new(base_seed);
         let run = RUNS[(k % RUNS.len() as u64) as usize];
